@@ -2,11 +2,12 @@
 # Rebuilds the two C++ extensions from /repo's CURRENT sources into a scratch copy and prints its path.
 # usage: build_ext.sh [asan]    -> prints the scratch directory (caller removes it)
 set -e
+R=${PYVC_REPO_SRC:-/repo}   # development only: another tree (seed checks on a scratch copy); the registered commands never set it
 S=$(mktemp -d /verif/.scratch/ext_XXXXXX)
-rsync -a --exclude 'tests' --exclude '*.so' --exclude '__pycache__' --exclude 'library/networks' /repo/wntr $S/ 
-cp /repo/setup.py /repo/README.md $S/ 2>/dev/null || true
-cp -r /repo/wntr/epanet/libepanet $S/wntr/epanet/ 2>/dev/null || true
-for f in /repo/wntr/epanet/libepanet/linux-x64/*.so; do mkdir -p $S/wntr/epanet/libepanet/linux-x64; cp $f $S/wntr/epanet/libepanet/linux-x64/; done
+rsync -a --exclude 'tests' --exclude '*.so' --exclude '__pycache__' --exclude 'library/networks' $R/wntr $S/ 
+cp $R/setup.py $R/README.md $S/ 2>/dev/null || true
+cp -r $R/wntr/epanet/libepanet $S/wntr/epanet/ 2>/dev/null || true
+for f in $R/wntr/epanet/libepanet/linux-x64/*.so; do mkdir -p $S/wntr/epanet/libepanet/linux-x64; cp $f $S/wntr/epanet/libepanet/linux-x64/; done
 cd $S
 export BUILD_WNTR_EXTENSIONS=true
 if [ "$1" = "asan" ]; then export CFLAGS="-fsanitize=address,undefined -fno-omit-frame-pointer -O1"; export LDFLAGS="-fsanitize=address,undefined"; fi
